@@ -101,11 +101,12 @@ def tlc(specdir, module, cfg=None, workers="auto", timeout=900, simulate=None, d
             m = re.match(r"Error: Invariant (\S+) is violated", line)
             if m:
                 res["violated"] = m.group(1)
-            elif line.startswith("Error:") and res["error"] is None:
+            elif re.match(r"Error: Action property .* is violated|Error: Temporal properties were violated", line):
+                res["violated"] = "temporal-or-action-property"
+            elif line.startswith("Error: The behavior up to this point") or line.startswith("Error: The following behavior"):
+                pass
+            elif line.startswith("Error:") and res["error"] is None and res["violated"] is None:
                 res["error"] = line.strip()
-            m = re.match(r"Error: Action property (\S+) is violated|Error: Temporal properties were violated", line)
-            if m:
-                res["violated"] = m.group(1) or "temporal"
     res["tail"] = "".join(tail[-60:])
     if p.returncode == 124:
         raise Infra("TLC timed out after %ds on %s" % (timeout, module))
